@@ -17,7 +17,7 @@ package pogreb
 // every bucket of a file of length n (contents m) has a well-formed overflow pointer
 //@ spec func opaque chainsOK(m mem, n int64, ovfSize int64) bool = forall q int64 :: trig(q) && nextPos(q, n) ==> nextOK(int64(le64(m, int(q))), ovfSize)
 
-//@ spec func idxFiles(idx *index) bool = idx != nil && allocated(idx.main) && allocated(idx.overflow) && idx.main != idx.overflow && fileInv(idx.main) && fileInv(idx.overflow) && idx.main.File != idx.overflow.File && fidOf[idx.main.File] != fidOf[idx.overflow.File] && idx.main.size >= 1024 && idx.main.size <= 0x20000000200 && idx.overflow.size >= 512 && idx.overflow.size <= 0x1000000000000
+//@ spec func idxFiles(idx *index) bool = idx != nil && allocated(idx.main) && allocated(idx.overflow) && idx.main != idx.overflow && fileInv(idx.main) && fileInv(idx.overflow) && idx.main.File != idx.overflow.File && fidOf[idx.main.File] != fidOf[idx.overflow.File] && idx.main.size >= 1024 && idx.main.size <= 0x20000000200 && idx.overflow.size >= 512 && idx.overflow.size <= 0x1000000000000 && idx.overflow.size & 511 == 0
 // linear hashing state: numBuckets == 2^level + splitBucketIdx, the main file holds exactly numBuckets buckets
 //@ spec func idxLH(idx *index) bool = idx.level < 32 && idx.splitBucketIdx < uint32(1) << idx.level && uint64(idx.numBuckets) == (uint64(1) << idx.level) + uint64(idx.splitBucketIdx) && idx.main.size == 512 + 512*int64(idx.numBuckets)
 //@ spec func idxWF(idx *index) bool = idxFiles(idx) && idxLH(idx) && chainsOK(fData[fidOf[idx.main.File]], idx.main.size, idx.overflow.size) && chainsOK(fData[fidOf[idx.overflow.File]], idx.overflow.size, idx.overflow.size)
